@@ -18,3 +18,195 @@ Proof.
       inversion H; subst. eapply IH; eauto.
     + now inversion H.
 Qed.
+
+(* ------------------------------------------------------------------ *)
+(* Part A: the stateful Responder emits a purely functional encoding   *)
+
+Lemma reset_init r ck : reset r (Some ck) = init ck.
+Proof. reflexivity. Qed.
+
+Definition head_of (date : bytes) (r : rstate) : bytes := snd (build date r).
+Definition eff_chunked (date : bytes) (r : rstate) : bool :=
+  if headed r then chunked r
+  else snd (built_headers date (chunkable r) (headers r)) || chunked r.
+
+Lemma run_ended date r ps : ended r = true -> run_pieces date r ps = Ok (r, []).
+Proof. intros H. destruct ps; cbn [run_pieces]; now rewrite H. Qed.
+
+Lemma write_nolen date r msg :
+  started r = true -> length_ r = None ->
+  exists r', write date r msg =
+             Ok (r', (if headed r then [] else head_of date r)
+                     ++ (if eff_chunked date r then pack_chunk msg else msg))
+    /\ started r' = true /\ length_ r' = None /\ headed r' = true
+    /\ chunked r' = eff_chunked date r /\ ended r' = ended r.
+Proof.
+  intros Hs Hl. unfold write, eff_chunked, head_of. rewrite Hs. cbn [negb].
+  destruct (headed r) eqn:Hh.
+  - rewrite Hl. exists r. repeat split; auto.
+  - unfold build. destruct (built_headers date (chunkable r) (headers r)) as [hs ch].
+    cbn [set_headed length_ chunked headed started ended size snd fst chunkable status headers].
+    rewrite Hl.
+    eexists. split; [reflexivity|]. cbn. repeat split; auto.
+    all: destruct ch, (chunked r); reflexivity.
+Qed.
+
+Lemma clamp_firstn (msg : bytes) (L sz0 : N) :
+  (if L <? sz0 + len msg then firstn (N.to_nat (len msg - (sz0 + len msg - L))) msg else msg)
+  = firstn (N.to_nat (L - sz0)) msg.
+Proof.
+  unfold len. destruct (L <? sz0 + N.of_nat (length msg)) eqn:E.
+  - f_equal. lia.
+  - symmetry. apply firstn_all2. lia.
+Qed.
+
+Lemma write_len date r msg L :
+  started r = true -> length_ r = Some L -> chunkable r = false -> chunked r = false ->
+  exists r', write date r msg =
+             Ok (r', (if headed r then [] else head_of date r) ++ firstn (N.to_nat (L - size r)) msg)
+    /\ started r' = true /\ length_ r' = Some L /\ chunkable r' = false /\ chunked r' = false
+    /\ headed r' = true /\ ended r' = ended r
+    /\ size r' = size r + N.min (len msg) (L - size r).
+Proof.
+  intros Hs Hl Hck Hch. unfold write, head_of. rewrite Hs. cbn [negb].
+  assert (Hsz : forall m : bytes, len (firstn (N.to_nat (L - size r)) m) = N.min (len m) (L - size r)).
+  { intros m. unfold len. rewrite firstn_length. lia. }
+  destruct (headed r) eqn:Hh.
+  - rewrite Hch, Hl. rewrite clamp_firstn. eexists. split; [reflexivity|].
+    cbn [set_size started length_ chunkable chunked headed ended size]. rewrite Hsz. repeat split; auto.
+  - unfold build. rewrite Hck. unfold built_headers. cbn [andb].
+    cbn [set_headed length_ chunked headed started ended size snd fst chunkable status headers].
+    rewrite Hch, Hl. rewrite clamp_firstn. eexists. split; [reflexivity|].
+    cbn [set_size started length_ chunkable chunked headed ended size]. rewrite Hsz. repeat split; auto.
+Qed.
+
+Lemma concat_nil_cons (ps : list bytes) : List.concat ([] :: ps) = List.concat ps.
+Proof. reflexivity. Qed.
+
+Lemma is_nil_true {A} (l : list A) : is_nil l = true -> l = [].
+Proof. destruct l; [reflexivity|discriminate]. Qed.
+
+Lemma run_len date L : forall ps r,
+  started r = true -> ended r = false -> length_ r = Some L ->
+  chunkable r = false -> chunked r = false ->
+  size r <= L -> (headed r = true -> size r < L) ->
+  exists r', run_pieces date r ps =
+             Ok (r', (if headed r then [] else head_of date r)
+                     ++ firstn (N.to_nat (L - size r)) (List.concat ps)).
+Proof.
+  induction ps as [|p ps IH]; intros r Hs He Hl Hck Hch Hle Hlt; cbn [run_pieces]; rewrite He.
+  - destruct (write_len date r [] L Hs Hl Hck Hch) as (r' & Hw & _). rewrite Hw.
+    eexists. cbn [List.concat]. now rewrite !firstn_nil.
+  - destruct (is_nil p) eqn:Hp.
+    { apply is_nil_true in Hp. subst p. rewrite concat_nil_cons. now apply IH. }
+    destruct (write_len date r p L Hs Hl Hck Hch) as (r1 & Hw & Hs1 & Hl1 & Hck1 & Hch1 & Hh1 & He1 & Hz1).
+    rewrite Hw, Hl1. cbn [List.concat]. rewrite firstn_app.
+    destruct (L <=? size r1) eqn:Hend.
+    + rewrite run_ended by reflexivity.
+      eexists. f_equal. f_equal. rewrite app_nil_r. f_equal.
+      replace (N.to_nat (L - size r) - length p)%nat with 0%nat by (unfold len in Hz1; lia).
+      now rewrite firstn_O, app_nil_r.
+    + assert (Hlen : len p < L - size r) by lia.
+      destruct (IH r1 Hs1 (eq_trans He1 He) Hl1 Hck1 Hch1) as (r3 & Hr); [lia | intros _; lia |].
+      rewrite Hr, Hh1. exists r3. f_equal. f_equal. rewrite <- app_assoc. f_equal.
+      cbn [List.app]. f_equal. f_equal. unfold len in *. lia.
+Qed.
+
+Definition nonnil (p : bytes) : bool := negb (is_nil p).
+Definition chunk_body (ps : list bytes) : bytes :=
+  List.concat (List.map pack_chunk (List.filter nonnil ps)) ++ pack_chunk [].
+
+Lemma run_nolen date : forall ps r,
+  started r = true -> ended r = false -> length_ r = None ->
+  exists r', run_pieces date r ps =
+             Ok (r', (if headed r then [] else head_of date r)
+                     ++ (if eff_chunked date r then chunk_body ps else List.concat ps)).
+Proof.
+  induction ps as [|p ps IH]; intros r Hs He Hl; cbn [run_pieces]; rewrite He.
+  - destruct (write_nolen date r [] Hs Hl) as (r' & Hw & _). rewrite Hw.
+    eexists. reflexivity.
+  - destruct (is_nil p) eqn:Hp.
+    { destruct (IH r Hs He Hl) as (r' & Hr). rewrite Hr. exists r'.
+      apply is_nil_true in Hp. subst p. unfold chunk_body. cbn [List.filter nonnil is_nil negb].
+      reflexivity. }
+    destruct (write_nolen date r p Hs Hl) as (r1 & Hw & Hs1 & Hl1 & Hh1 & Hch1 & He1).
+    rewrite Hw, Hl1.
+    destruct (IH r1 Hs1 (eq_trans He1 He) Hl1) as (r3 & Hr). rewrite Hr, Hh1.
+    exists r3. f_equal. f_equal. rewrite <- app_assoc. f_equal. cbn [List.app].
+    assert (E : eff_chunked date r1 = eff_chunked date r).
+    { unfold eff_chunked at 1. now rewrite Hh1. }
+    rewrite E. unfold chunk_body. cbn [List.filter]. change (nonnil p) with (negb (is_nil p)). rewrite Hp. cbn [negb List.map List.concat].
+    destruct (eff_chunked date r); [|reflexivity]. now rewrite <- app_assoc.
+Qed.
+
+(* the head and body of the response to request q by application a *)
+Definition enc_head (date : bytes) (q : req) (a : app) : bytes :=
+  let ck := r_v11 q && negb (hmem s_content_length (a_headers a)) in
+  s_http11 ++ a_status a ++ crlf
+  ++ List.concat (List.map header_line (fst (built_headers date ck (a_headers a)))) ++ crlf.
+Definition enc_body (date : bytes) (q : req) (a : app) : bytes :=
+  match declared a with
+  | Some L => firstn (N.to_nat L) (List.concat (a_pieces a))
+  | None =>
+    if snd (built_headers date (r_v11 q && negb (hmem s_content_length (a_headers a))) (a_headers a))
+    then chunk_body (a_pieces a) else List.concat (a_pieces a)
+  end.
+Definition encode (date : bytes) (qa : req * app) : bytes :=
+  enc_head date (fst qa) (snd qa) ++ enc_body date (fst qa) (snd qa).
+
+(* content-length header present implies it parses (part of wf_app) *)
+Definition cl_ok (a : app) : Prop :=
+  match hfind s_content_length (a_headers a) with
+  | Some v => parse_dec v <> None
+  | None => True
+  end.
+
+Lemma respond_spec date q a rs :
+  cl_ok a ->
+  exists r1 r2,
+    start (match rs with None => init (r_v11 q) | Some r => reset r (Some (r_v11 q)) end)
+          (a_status a) (a_headers a) = Ok r1
+    /\ run_pieces date r1 (a_pieces a) = Ok (r2, encode date (q, a)).
+Proof.
+  intros Hcl.
+  assert (E0 : match rs with None => init (r_v11 q) | Some r => reset r (Some (r_v11 q)) end = init (r_v11 q)).
+  { destruct rs; reflexivity. }
+  rewrite E0. unfold init, start, cl_ok, encode, enc_head, enc_body, declared, hmem in *.
+  cbn [started headed chunked ended size chunkable fst snd].
+  destruct (hfind s_content_length (a_headers a)) as [v|] eqn:Hf.
+  - destruct (parse_dec v) as [L|] eqn:Hd; [|congruence].
+    eexists. 
+    edestruct (run_len date L (a_pieces a)) as (r2 & Hr); cycle 7.
+    { exists r2. split; [reflexivity|]. rewrite Hr.
+      cbn [headed size]. unfold head_of, build. cbn [chunkable headers status andb negb].
+      rewrite Bool.andb_false_r.
+      destruct (built_headers date false (a_headers a)) as [hs ch] eqn:Eb.
+      cbn [fst snd]. rewrite N.sub_0_r. reflexivity. }
+    all: unfold init; cbn [started ended length_ chunkable chunked size headed]; try reflexivity; try lia; try discriminate.
+  - eexists.
+    edestruct (run_nolen date (a_pieces a)) as (r2 & Hr); cycle 3.
+    { exists r2. split; [reflexivity|]. rewrite Hr.
+      cbn [headed]. unfold head_of, eff_chunked, build. cbn [chunkable headers status headed chunked negb].
+      rewrite Bool.andb_true_r, Bool.orb_false_r.
+      destruct (built_headers date (r_v11 q) (a_headers a)) as [hs ch] eqn:Eb.
+      cbn [fst snd]. reflexivity. }
+    all: reflexivity.
+Qed.
+
+(* the whole connection: the stream is the concatenation of the encodings of the
+   answered requests, independently of the Responder being created or reused *)
+Lemma serve_spec date : forall conn rs,
+  (forall qa, In qa conn -> cl_ok (snd qa)) ->
+  serve date rs conn = Ok (List.concat (List.map (encode date) (answered conn)), closes conn).
+Proof.
+  induction conn as [|[q a] rest IH]; intros rs Hcl; cbn [serve answered closes].
+  - reflexivity.
+  - destruct (negb (r_ok q)); [reflexivity|].
+    destruct (respond_spec date q a rs) as (r1 & r2 & Hst & Hrun).
+    { apply (Hcl (q, a)). now left. }
+    rewrite Hst, Hrun.
+    destruct (persisted q).
+    + rewrite IH by (intros qa Hin; apply Hcl; now right).
+      cbn [List.map List.concat]. reflexivity.
+    + cbn [List.map List.concat]. now rewrite app_nil_r.
+Qed.
